@@ -567,9 +567,12 @@ def chkD (i : DIn) (res : List DRes) : Option String :=
   then some "C04:fb-retard-mix a feedback channel is not the delayed, flag-cleared feedback plus the scaled error of the same sample" else
   -- loss report and numbering
   let times := i.t0 :: bufs.map (·.2.2.1)
-  let est := (List.zip bufs times).map fun (bu, tprev) => if bu.2.2.2 then bu.2.2.1 - tprev else 0
-  if (bs.map (·.dropped)) != est then some "C04:drop-report droppedFrames is not the loss estimate (0 without a detected loss)" else
-  if est.all (· ≥ 0) && !(monotone bs) then some "C04:frames-backwards a later block starts before the end of an earlier one" else
+  let est : List Int := (List.zip bufs times).map fun (bu, tprev) => if bu.2.2.2 then bu.2.2.1 - tprev else 0
+  -- the statement wants a loss REPORTED, not a particular estimate: a block without a detected loss reports
+  -- none, a block with a detected loss and a non-zero elapsed time reports one
+  if (List.zip bs est).any (fun (b, e) => (e == 0 && b.dropped != 0) || (e != 0 && b.dropped == 0))
+  then some "C04:drop-report a loss is reported without a detected loss, or a detected loss is not reported" else
+  if bs.all (·.dropped ≥ 0) && !(monotone bs) then some "C04:frames-backwards a later block starts before the end of an earlier one" else
   if est.all (· == 0) && !(contiguous i.first bs) then some "C04:frame-numbering frame numbers not contiguous on a loss-free run" else
   if frsAll.all (flagsUniform g) &&
      (bs.flatMap (·.ext)) != edgeSpec false ((List.zip bs bufs).flatMap fun (b, bu) => flagItems g bu.1 b.first)
